@@ -95,9 +95,14 @@ type model struct {
 	// bd2Since2: the replica bd2 was registered at some point since revision
 	// 2 was last in effect (its presence keeps the method's rules alive)
 	bd2Since2 bool
+	// bdList: what bd's reflection lists now ("all" | "d1"); bdRegList: what
+	// it listed at its last successful registration
+	bdList, bdRegList string
 }
 
-func newModel() *model { return &model{conns: map[string]bool{}, ever: map[string]bool{}, bdRev: 1} }
+func newModel() *model {
+	return &model{conns: map[string]bool{}, ever: map[string]bool{}, bdRev: 1, bdList: "all"}
+}
 
 func (m *model) live(svc string) map[string]bool {
 	out := map[string]bool{}
@@ -322,6 +327,14 @@ func (w *Worker) apply(mux *larking.Mux, op Op) (regErr error, dropped bool, pi 
 			regErr = mux.RegisterConn(ctx, w.conn(op.B))
 		case "DropConn":
 			dropped = mux.DropConn(ctx, w.conn(op.B))
+		case "List":
+			// the back-end starts / stops advertising its second service
+			// (same file, same bytes); the mux is not told
+			if op.B == "d1" {
+				w.bd.SetListed("vf.rs.D1")
+			} else {
+				w.bd.SetListed()
+			}
 		case "Rev":
 			// the back-end is redeployed: its reflection serves another
 			// revision from now on; the mux is not told
@@ -362,6 +375,7 @@ func (w *Worker) Run(h History, draws int) *Outcome {
 	w.cur.Store(mux)
 	w.takePanics()
 	w.bd.SetFiles(w.fdD[1])
+	w.bd.SetListed()
 	m := newModel()
 	for step, op := range h {
 		regErr, dropped, pi := w.apply(mux, op)
@@ -370,6 +384,8 @@ func (w *Worker) Run(h History, draws int) *Outcome {
 			// the model treats a panicking operation as not having happened
 		} else {
 			switch op.K {
+			case "List":
+				m.bdList = op.B
 			case "Rev":
 				m.bdRev = map[string]int{"1": 1, "2": 2, "bad": 3}[op.B]
 			case "RegLocal", "RegConn":
@@ -399,6 +415,7 @@ func (w *Worker) Run(h History, draws int) *Outcome {
 					m.ever[prov] = true
 					m.ever[tagOf(prov)] = true
 					if prov == "bd" {
+						m.bdRegList = m.bdList
 						m.bdReg = m.bdRev
 						if m.bdRev == 2 {
 							m.bdEver2 = true
@@ -429,6 +446,12 @@ func (w *Worker) Run(h History, draws int) *Outcome {
 
 		// requests after the step
 		for _, md := range methods {
+			if md.full == "/vf.rs.D2/Get" && m.conns["bd"] && m.bdRegList == "d1" && !m.conns["bd2"] {
+				// bd did not advertise D2 when it was registered: whether the
+				// mux routes the unadvertised service of the same file is not
+				// claimed either way
+				continue
+			}
 			live := m.live(md.svc)
 			check := func(front, binding string, a answer) {
 				out.NReq++
